@@ -258,6 +258,51 @@ def load_known(prop_id):
     return {e['signature']: e for e in data.get('findings', []) if e.get('property') == prop_id}
 
 
+def scramble(obj, depth=5, _seen=None):
+    """edits, IN PLACE, every plain attribute of a parsed result the way a caller may (flags flipped, numbers bumped, byte strings
+    reversed, lists extended, dictionaries emptied), recursively through attribute objects, lists and dict values. Cells / slices /
+    builders and other library containers are left alone (editing those is not "editing the result"). Used by parser checks: what
+    a parser returns belongs to the caller - a later parse of any cell is unaffected by what was done to an earlier result."""
+    _seen = _seen if _seen is not None else set()
+    if depth < 0 or id(obj) in _seen or obj is None or isinstance(obj, (int, str, bytes, float, bool)):
+        return
+    _seen.add(id(obj))
+    mod = type(obj).__module__ or ''
+    if isinstance(obj, list):
+        for x in list(obj):
+            scramble(x, depth - 1, _seen)
+        obj.append(None)
+        return
+    if isinstance(obj, dict):
+        for x in list(obj.values()):
+            scramble(x, depth - 1, _seen)
+        obj.clear()
+        return
+    if isinstance(obj, tuple):
+        for x in obj:
+            scramble(x, depth - 1, _seen)
+        return
+    if not mod.startswith('pytoniq_core') or type(obj).__name__ in ('Cell', 'Slice', 'Builder', 'TvmBitarray'):
+        return
+    d = getattr(obj, '__dict__', None)
+    if not isinstance(d, dict):
+        return
+    for k, v in list(d.items()):
+        try:
+            if isinstance(v, bool):
+                setattr(obj, k, not v)
+            elif isinstance(v, int):
+                setattr(obj, k, v + 1 if v < 5 else v - 1)
+            elif isinstance(v, (bytes, bytearray)):
+                setattr(obj, k, bytes(v)[::-1] + b'\x01')
+            elif isinstance(v, str):
+                setattr(obj, k, v + '~')
+            else:
+                scramble(v, depth - 1, _seen)
+        except Exception:
+            pass
+
+
 def _shard_worker(args):
     prop_id, sub_name, shard, nshards, tier, seed, shrink_s = args
     import importlib
